@@ -1042,12 +1042,6 @@ func (ex *extractor) callPass() {
 					c.Registrar = id
 					c.Mux = t.Mux
 					c.Chain = append([]string{}, t.Chain...)
-					hasEnsure := false
-					for _, w := range c.Chain {
-						hasEnsure = hasEnsure || w == "ensure"
-					}
-
-					_ = hasEnsure
 					routes = append(routes, &c)
 					matched = true
 				}
